@@ -59,6 +59,8 @@ def obligations():
           Obl("C18.mdcrd.box.seek", "xh", "harness.c18_text", "mdcrd_box_seek", enc, "file with box lines, total<=5", "seek over frames with box lines", 120),
           Obl("C18.xyz.len", "xh", "harness.c18_text", "xyz_len", ["mdtraj.formats.xyzfile.XYZTrajectoryFile.__len__"], "total<=5, any pos",
               "len() reports the number of frames and does not disturb the cursor, whatever was done before", 60),
+          Obl("C18.xyz.len_after_op", "xh", "harness.c18_text", "xyz_len_after_op", ["mdtraj.formats.xyzfile.XYZTrajectoryFile.__len__", "mdtraj.formats.xyzfile.XYZTrajectoryFile.read", "mdtraj.formats.xyzfile.XYZTrajectoryFile.seek"],
+              "total<=4, any pos, op in {read(n), read(), seek}, length cache empty or filled", "len() is the number of frames regardless of what was done before (cached length stays None or the true length)", 120),
           Obl("C18.arc.read_n", "xh", "harness.c18_text", "arc_read_n", ["mdtraj.formats.arc.ArcTrajectoryFile.read", "mdtraj.formats.arc.ArcTrajectoryFile._read"], "total<=5",
               "sequential read(n) on TINKER arc returns the next n frames", 90),
           Obl("C18.arc.seek_tell", "xh", "harness.c18_text", "arc_seek_tell", ["mdtraj.formats.arc.ArcTrajectoryFile.seek", "mdtraj.formats.arc.ArcTrajectoryFile.tell"], "total<=5",
